@@ -168,7 +168,7 @@ def judge(ctx: core.Ctx, case: dict[str, Any]) -> None:
     o = drv.parse_and_render(env(case.get("tc", False)), src, {}, use_async=case.get("async", False))
     if not o.ok:
         ctx.evaluations += 1
-        ctx.violation(f"raises-{o.err_class}", f"{src!r} raised {o.err_class}: {str(o.exc)[:100]}")
+        ctx.violation(f"raises-{o.err_class}", f"{src!r} raised {o.err_class}: {drv.safe_str(o.exc)[:100]}")
         return
     if o.value not in exps:
         small = minimise(case)
